@@ -137,9 +137,25 @@ def insRow (x : Rat × Rat × Nat) : List (Rat × Rat × Nat) → List (Rat × R
 def fmtRows (l : List (Rat × Rat × Nat)) : String :=
   fmtList (fun r => fmtTuple [fmtRat r.1, fmtRat r.2.1, fmtNat r.2.2]) (l.foldr insRow [])
 
+abbrev CellRow := (Int × Nat × Int) × (Option Nat × Int)
+
+def ltCell (a b : CellRow) : Bool :=
+  let ka := (a.1.1, (a.1.2.1 : Int), a.1.2.2, (match a.2.1 with | some p => (p : Int) | none => -1), a.2.2)
+  let kb := (b.1.1, (b.1.2.1 : Int), b.1.2.2, (match b.2.1 with | some p => (p : Int) | none => -1), b.2.2)
+  ka.1 < kb.1 || (ka.1 == kb.1 && (ka.2.1 < kb.2.1 || (ka.2.1 == kb.2.1 && (ka.2.2.1 < kb.2.2.1 || (ka.2.2.1 == kb.2.2.1 &&
+    (ka.2.2.2.1 < kb.2.2.2.1 || (ka.2.2.2.1 == kb.2.2.2.1 && ka.2.2.2.2 < kb.2.2.2.2)))))))
+
+def insCell (x : CellRow) : List CellRow → List CellRow
+  | [] => [x]
+  | a :: as => if ltCell x a then x :: a :: as else a :: insCell x as
+
+def fmtCells (l : List CellRow) : String :=
+  fmtList (fun r : CellRow => fmtTuple [fmtInt r.1.1, fmtNat r.1.2.1, fmtInt r.1.2.2, fmtOpt fmtNat r.2.1, fmtInt r.2.2])
+    (l.foldr insCell [])
+
 /-- the vocabulary of the theorems (Model/ScoreMidiSpec.lean), not the model of the exporter: what every track
     must hold (notes routed to it, key / time signature and tempo events) and the notes in musical time -/
-def specText (mode : Nat) (a : Anacrusis) (mn vel : Nat) (ps : List PartIn) : Option String :=
+def specText (cells : Bool) (mode : Nat) (a : Anacrusis) (mn vel : Nat) (ps : List PartIn) : Option String :=
   (origin a (ps.map (·.base))).bind fun o =>
   (mapToTrackChannel mode (noteKeys ps)).bind fun tcs =>
   (maxList (tcs.map (·.1))).map fun m =>
@@ -147,7 +163,9 @@ def specText (mode : Nat) (a : Anacrusis) (mn vel : Nat) (ps : List PartIn) : Op
     let ktc := (noteKeys ps).zip tcs
     let trs := List.range (m + 1)
     let tsPart := if a = .timeSigChange then "-" else fmtList (fun tr => fmtEvsSorted (trackTS a p o ktc ps tr)) trs
-    s!"{fmtRat o}|{fmtList (fun tr => fmtList fmtRec ((routedTo p o vel ktc ps tr).foldr insRec [])) trs}|{fmtList (fun tr => fmtEvsSorted (trackKS p o ktc ps tr)) trs}|{tsPart}|{fmtList (fun tr => fmtEvsSorted (trackTempo p o ps tr)) trs}|{fmtRows (scoreRows ps)}"
+    -- the (part, voice) every note must come back in (`writtenCells` of roundtrip_cells)
+    let cellPart := if cells then fmtCells (writtenCells mode p o ktc ps) else "-"
+    s!"{fmtRat o}|{fmtList (fun tr => fmtList fmtRec ((routedTo p o vel ktc ps tr).foldr insRec [])) trs}|{fmtList (fun tr => fmtEvsSorted (trackKS p o ktc ps tr)) trs}|{tsPart}|{fmtList (fun tr => fmtEvsSorted (trackTempo p o ps tr)) trs}|{fmtRows (scoreRows ps)}|{cellPart}"
 
 def impText (r : Imported) : String :=
   s!"{fmtList fmtPartOut r.parts}|{fmtList (fun t => fmtTuple [fmtInt t.1, fmtNat t.2]) (r.tempos.foldr insTempo [])}"
@@ -169,14 +187,14 @@ def handle (ts : List String) : String :=
       (saveScore mode a mn vel ps).map fun e =>
         s!"{e.ppq}|{fmtTracks e.tracks}|{fmtTracks (e.tracks.map (deltasFrom 0))}"
   | "spec" :: rest =>
-    orErr <| (run (do let mode ← nat; let a ← pAnac; let mn ← nat; let vel ← nat; let ps ← list pPart
-                      pure (mode, a, mn, vel, ps)) rest).bind fun (mode, a, mn, vel, ps) => specText mode a mn vel ps
+    orErr <| (run (do let fl ← nat; let mode ← nat; let a ← pAnac; let mn ← nat; let vel ← nat; let ps ← list pPart
+                      pure (fl, mode, a, mn, vel, ps)) rest).bind fun (fl, mode, a, mn, vel, ps) => specText (fl = 1) mode a mn vel ps
   | "expspec" :: rest =>
-    -- one request for both: the model of the exporter, then the theorems' vocabulary
-    orErr <| (run (do let mode ← nat; let a ← pAnac; let mn ← nat; let vel ← nat; let ps ← list pPart
-                      pure (mode, a, mn, vel, ps)) rest).bind fun (mode, a, mn, vel, ps) =>
+    -- one request for both: the model of the exporter, then the theorems' vocabulary (flag 1: with the cells)
+    orErr <| (run (do let fl ← nat; let mode ← nat; let a ← pAnac; let mn ← nat; let vel ← nat; let ps ← list pPart
+                      pure (fl, mode, a, mn, vel, ps)) rest).bind fun (fl, mode, a, mn, vel, ps) =>
       (saveScoreMidi mode a mn vel ps).map fun e =>
-        s!"{e.ppq}|{fmtTracks e.tracks}|{fmtTracks (e.tracks.map (deltasFrom 0))}#{orErr (specText mode a mn vel ps)}"
+        s!"{e.ppq}|{fmtTracks e.tracks}|{fmtTracks (e.tracks.map (deltasFrom 0))}#{orErr (specText (fl = 1) mode a mn vel ps)}"
   | "rows" :: rest =>
     -- the notes of an import in musical time (`importedRows`): origin, mode, ticks, tracks
     orErr <| (run (do let o ← rat; let mode ← nat; let ticks ← nat; let trs ← list pTrack; pure (o, mode, ticks, trs)) rest).bind
